@@ -152,3 +152,11 @@ Theorem C12_readwrite_in_out : forall x l,
   In (x, READWRITE) l -> (wfirst x l = false -> In x (inputs_of l)) /\ In x (outputs_of l).
 Proof. exact readwrite_in_out. Qed.
 Print Assumptions C12_readwrite_in_out.
+
+(* regenerated obligation (props/C12/translate.py -> coq/C12/GenTables.v): every intrinsic of the tree under test is known to the
+   frozen table of the Fortran standard's inquiry functions, and none is flagged `is_inquiry` (first argument skipped by
+   IntrinsicCall.reference_accesses) unless the standard classifies it as an inquiry function *)
+From PV Require Import C12.IntrTable C12.GenTables C12.IntrOblig.
+Theorem C12_inquiry_flags_sound : forallb flag_ok gen_intrinsics = true.
+Proof. exact inquiry_flags_sound. Qed.
+Print Assumptions C12_inquiry_flags_sound.
